@@ -18,6 +18,8 @@
 -/
 import JoinModel.Parse
 import JoinModel.SpecTables
+import JoinModel.Lemmas.ScanStep
+import JoinModel.Lemmas.OptionParse
 namespace JoinModel.Props.C14
 open JoinModel
 
@@ -120,57 +122,7 @@ theorem deferred_iff (ts : Toks) : Tables.deferredDet.check ts = true ↔ ∃ j 
 
 theorem deferred_len : Tables.deferredDet.len = 1 := rfl
 
-theorem firstMatch_nil : firstMatch [] = none := by det_simp
-
-/-- the input with a leading `~` dropped (what the determiners are tried on) -/
-def stripTilde (input : Toks) : Toks :=
-  if Tables.deferredDet.check input then input.drop Tables.deferredDet.len else input
-
-/-- the stop condition of one loop iteration -/
-def stopHere (o : Oracle) (syn : Syn) (allowEmpty : Bool) (acc input : Toks) : Bool :=
-  (firstMatch (stripTilde input)).isSome && ((acc.isEmpty && allowEmpty) || o.valid syn acc)
-
-theorem scan_stop (o : Oracle) (syn : Syn) (ae : Bool) (fuel : Nat) (acc input : Toks) (d0 : Bool)
-    (hne : input ≠ []) (h : stopHere o syn ae acc input = true) :
-    scan o syn ae (fuel + 1) acc input d0 =
-      .ok (acc, firstMatch (stripTilde input), Tables.deferredDet.check input, stripTilde input) := by
-  cases input with
-  | nil => exact absurd rfl hne
-  | cons t r =>
-    simp only [stopHere, stripTilde, Bool.and_eq_true] at h
-    simp only [scan, stripTilde]
-    cases hm : firstMatch (if Tables.deferredDet.check (t :: r) = true then List.drop Tables.deferredDet.len (t :: r) else t :: r) with
-    | none => rw [hm] at h; simp at h
-    | some g => rw [hm] at h; simp only [h.2]; simp
-
-/-- **Inside a not yet complete operand nothing splits**: when the tokens collected so far are not a complete
-    operand — or no determiner matches here — the next token tree is collected, whatever it looks like. -/
-theorem scan_continue (o : Oracle) (syn : Syn) (ae : Bool) (fuel : Nat) (acc input : Toks) (d0 : Bool) (t : TT) (rest : Toks)
-    (hne : input ≠ []) (h : stopHere o syn ae acc input = false) (hs : stripTilde input = t :: rest) :
-    scan o syn ae (fuel + 1) acc input d0 = scan o syn ae fuel (acc ++ [t]) rest (Tables.deferredDet.check input) := by
-  cases input with
-  | nil => exact absurd rfl hne
-  | cons t0 r =>
-    simp only [stopHere, stripTilde] at h hs
-    simp only [scan]
-    cases hm : firstMatch (if Tables.deferredDet.check (t0 :: r) = true then List.drop Tables.deferredDet.len (t0 :: r) else t0 :: r) with
-    | none => simp [hs]
-    | some g =>
-      rw [hm] at h
-      simp only [Option.isSome_some, Bool.true_and] at h
-      simp [h, hs]
-
-/-- a `~` at the very end of the input: the real parser reports "unexpected end of input" -/
-theorem scan_eof (o : Oracle) (syn : Syn) (ae : Bool) (fuel : Nat) (acc input : Toks) (d0 : Bool)
-    (hne : input ≠ []) (h : stopHere o syn ae acc input = false) (hs : stripTilde input = []) :
-    scan o syn ae (fuel + 1) acc input d0 = .error (.syn "unexpected end of input") := by
-  cases input with
-  | nil => exact absurd rfl hne
-  | cons t0 r =>
-    simp only [stopHere, stripTilde] at h hs
-    simp only [scan]
-    rw [hs] at h ⊢
-    simp [firstMatch_nil]
+-- `stripTilde`, `stopHere` and the one-iteration lemmas `scan_stop` / `scan_continue` / `scan_eof` are in Lemmas/ScanStep.lean
 
 /-- `b` is `a` with some top-level `~` tokens removed, everything else in place -/
 inductive DropT : Toks → Toks → Prop
@@ -951,6 +903,57 @@ theorem branch_roundtrip_partial (o : Oracle) (term x0 : Toks) (acts : List SrcA
     rw [hrec]
     simp
 
+/-- … and with `let`: when syn reads the initial unit as `let <ident pattern> = rhs`, the branch carries the pattern and
+    its identifier, and its initial value is `rhs` (a block or an expression, as syn classifies it); everything after
+    it is parsed as before. -/
+theorem branch_roundtrip_let_partial (o : Oracle) (term x0 : Toks) (acts : List SrcAct) (p : Toks) (i : String) (rhs : Toks)
+    (blk : Bool) (hx0 : OperandOK o x0 (renderActs term acts)) (hlet : o.letSplit x0 = .identPat p i rhs blk)
+    (hacts : ActsOK o term acts) (hbal : BalanceOK 0 acts) (fuel : Nat) (hfuel : acts.length + 2 ≤ fuel) :
+    buildChain o fuel ⟨.initial, false, .none⟩ (x0 ++ renderActs term acts) [] none 0 true =
+      .ok (⟨some ⟨p, i⟩, ⟨.initial, false, .none, [⟨if blk then .block else .expr, rhs⟩]⟩ :: acts.map (expMember o)⟩,
+        afterTerm term) := by
+  obtain ⟨fuel, rfl⟩ : ∃ f, fuel = f + 1 := ⟨fuel - 1, by omega⟩
+  obtain ⟨hx1, hx2, hx3⟩ := hx0
+  have hpu := parseUntil_acts o .expr false term x0 acts hx1 hx2 hx3 (ActsOK.head hacts)
+  have hpg : parseGroup o ⟨.initial, false, .none⟩ (x0 ++ renderActs term acts) =
+      .ok ((⟨.initial, false, .none, [mkOperand o .expr x0]⟩, [x0]), (nextOf term acts).1, (nextOf term acts).2) := by
+    have har : arityOf Comb.initial = some ⟨.initial, 1, false, .expr⟩ := by decide
+    simp [parseGroup, har, parseNOrEmpty, parseUnits, hpu]
+  unfold buildChain
+  rw [hpg]
+  simp only [if_true, hlet]
+  cases acts with
+  | nil =>
+    simp only [nextOf, List.map_nil, List.nil_append]
+    exact finish_chain term hacts _ _ _
+  | cons a as =>
+    obtain ⟨hb1, hb2⟩ := hbal
+    have hrec := chain_roundtrip_partial o term as a [⟨.initial, false, .none, [⟨if blk then .block else .expr, rhs⟩]⟩]
+      (some ⟨p, i⟩) _ fuel hacts hb2 (by simp at hfuel; omega)
+    simp only [nextOf, List.nil_append]
+    have hgd : a.grp.deferred = a.deferred := rfl
+    have hgm : a.grp.mv = a.mv := rfl
+    have hnot : ¬ ((if a.deferred = true then (0 : Int) else 0) + mvDelta a.mv < 0) := by omega
+    simp only [hgd, hgm, hnot, if_false]
+    rw [hrec]
+    simp
+
+/-- a `let` whose pattern is not an identifier pattern is rejected with the `IncorrectLet` error -/
+theorem branch_other_let_rejected (o : Oracle) (term x0 : Toks) (acts : List SrcAct)
+    (hx0 : OperandOK o x0 (renderActs term acts)) (hlet : o.letSplit x0 = .otherPat)
+    (hacts : ActsOK o term acts) (fuel : Nat) (hfuel : 1 ≤ fuel) :
+    buildChain o fuel ⟨.initial, false, .none⟩ (x0 ++ renderActs term acts) [] none 0 true = .error .incorrectLet := by
+  obtain ⟨fuel, rfl⟩ : ∃ f, fuel = f + 1 := ⟨fuel - 1, by omega⟩
+  obtain ⟨hx1, hx2, hx3⟩ := hx0
+  have hpu := parseUntil_acts o .expr false term x0 acts hx1 hx2 hx3 (ActsOK.head hacts)
+  have hpg : parseGroup o ⟨.initial, false, .none⟩ (x0 ++ renderActs term acts) =
+      .ok ((⟨.initial, false, .none, [mkOperand o .expr x0]⟩, [x0]), (nextOf term acts).1, (nextOf term acts).2) := by
+    have har : arityOf Comb.initial = some ⟨.initial, 1, false, .expr⟩ := by decide
+    simp [parseGroup, har, parseNOrEmpty, parseUnits, hpu]
+  unfold buildChain
+  rw [hpg]
+  simp only [if_true, hlet]
+
 /-! ### 7. Several branches -/
 
 structure SrcBranch where
@@ -1080,6 +1083,53 @@ theorem input_roundtrip_partial (o : Oracle) (bs : List SrcBranch) (hne : bs ≠
     | nil => exact absurd rfl hne
     | cons b rest => rfl
   simp [hne']
+
+/-- … and with options in front: any subset of the four options, in any order, each with an argument that parses,
+    followed by the branches.  The options set their fields (`applyItem`, Lemmas/OptionParse.lean), the branches are
+    parsed as in `input_roundtrip_partial`; an option argument with tokens left over is the "unexpected token" error. -/
+theorem input_roundtrip_options_partial (o : Oracle) (its : List OptItem) (bs : List SrcBranch) (hne : bs ≠ [])
+    (hok : BranchesOK o bs) (hits : ∀ it ∈ its, ItemOK o it) (hnd : (its.map (·.kw)).Nodup)
+    (hopt : optionKw (renderBranches bs) = none) :
+    parseMacroInput o (renderOpts its ++ renderBranches bs) =
+      (if (its.foldl (applyItem o) {}).unexpected then .error (.syn "unexpected token")
+       else .ok { fcp := (its.foldl (applyItem o) {}).fcp, joiner := (its.foldl (applyItem o) {}).joiner,
+                  transpose := (its.foldl (applyItem o) {}).transpose, lazy := (its.foldl (applyItem o) {}).lazy,
+                  handler := none, branches := bs.map (expBranch o) }) := by
+  have hrounds : Tables.optionRounds = none := rfl
+  have hnoopt := input_roundtrip_partial o bs hne hok hopt
+  -- the branch part, as the option-less theorem uses it
+  unfold parseMacroInput at hnoopt ⊢
+  simp only [hrounds] at hnoopt ⊢
+  have hpo0 : parseOptions o ((renderBranches bs).length + 1) ((renderBranches bs).length + 1) (renderBranches bs) {} =
+      .ok ({}, renderBranches bs) := by
+    simp [parseOptions, hrounds, hopt]
+  rw [hpo0] at hnoopt
+  simp only at hnoopt
+  have hl : its.length < (renderOpts its ++ renderBranches bs).length + 1 := by
+    simp only [List.length_append, renderOpts_length]; omega
+  have hpo : parseOptions o ((renderOpts its ++ renderBranches bs).length + 1) ((renderOpts its ++ renderBranches bs).length + 1)
+      (renderOpts its ++ renderBranches bs) {} = .ok (its.foldl (applyItem o) {}, renderBranches bs) := by
+    rw [parseOptions_seq o _ hopt _ _ its {} hits hl hl,
+      seqSpec_ok o its {} hits hnd (fun it hit => by
+        rcases mem_optionOrder _ (hits it hit).1 with h | h | h | h <;> simp [isSet, h])]
+  rw [hpo]
+  simp only
+  cases hpi : parseItems o ((renderBranches bs).length + 2) (renderBranches bs) [] none with
+  | error e => rw [hpi] at hnoopt; simp at hnoopt
+  | ok r =>
+    obtain ⟨bs', h'⟩ := r
+    rw [hpi] at hnoopt
+    simp only at hnoopt ⊢
+    by_cases hemp : bs'.isEmpty = true
+    · simp [hemp] at hnoopt
+    · simp only [hemp, Bool.false_eq_true, if_false, Opts.unexpected] at hnoopt ⊢
+      have hb : bs' = bs.map (expBranch o) ∧ h' = none := by
+        have := hnoopt
+        simp only [Except.ok.injEq] at this
+        have h1 := congrArg Input.branches this
+        have h2 := congrArg Input.handler this
+        exact ⟨h1, h2⟩
+      rw [hb.1, hb.2]
 
 /-- the model on a concrete chain with `~`, `>>>` and `<<<` (an oracle that accepts single tokens as expressions):
     `a |> f ~=> >>> <<<` -/
